@@ -188,6 +188,23 @@ End Uniaxial.
 
 (* n_x = n_y = n_o: one value is n_o for every direction, the other obeys 1/n^2 = cos^2/no^2 + sin^2/ne^2, cos = s_z.
    Which polarization label gets which is decided by the sign of the birefringence, exactly as the code selects. *)
+Theorem uniaxial_closed_form_sz no ne sx sy sz :
+  0 < no -> 0 < ne -> sx * sx + sy * sy + sz * sz = 1 ->
+  (ne <= no -> fresnel_index Ordinary no no ne sx sy sz = no /\
+               fresnel_index Extraordinary no no ne sx sy sz = 1 / sqrt (y_uniaxial (inv2 no) (inv2 ne) (sz * sz))) /\
+  (no <= ne -> fresnel_index Ordinary no no ne sx sy sz = 1 / sqrt (y_uniaxial (inv2 no) (inv2 ne) (sz * sz)) /\
+               fresnel_index Extraordinary no no ne sx sy sz = no).
+Proof.
+  intros Hno Hne Hs.
+  assert (Hpz : sz * sz <= 1) by (pose proof (sq_nonneg sx); pose proof (sq_nonneg sy); lra).
+  unfold fresnel_index.
+  split; intros Hord.
+  - destruct (uniaxial_roots_neg (inv2 no) (inv2 ne) _ _ _ Hs Hpz) as [E1 E2]; [apply inv2_antitone; assumption |].
+    rewrite E1, E2. split; [apply inv_sqrt_inv2; assumption | reflexivity].
+  - destruct (uniaxial_roots_pos (inv2 no) (inv2 ne) _ _ _ Hs Hpz) as [E1 E2]; [apply inv2_antitone; assumption |].
+    rewrite E1, E2. split; [reflexivity | apply inv_sqrt_inv2; assumption].
+Qed.
+
 Theorem uniaxial_closed_form no ne sx sy th :
   0 < no -> 0 < ne -> sx * sx + sy * sy + cos th * cos th = 1 ->
   (ne <= no -> fresnel_index Ordinary no no ne sx sy (cos th) = no /\
@@ -195,14 +212,8 @@ Theorem uniaxial_closed_form no ne sx sy th :
   (no <= ne -> fresnel_index Ordinary no no ne sx sy (cos th) = n_uniaxial no ne th /\
                fresnel_index Extraordinary no no ne sx sy (cos th) = no).
 Proof.
-  intros Hno Hne Hs.
-  assert (Hpz : cos th * cos th <= 1) by (pose proof (sq_nonneg sx); pose proof (sq_nonneg sy); lra).
-  unfold fresnel_index, n_uniaxial. replace (cos th ^ 2) with (cos th * cos th) by ring.
-  split; intros Hord.
-  - destruct (uniaxial_roots_neg (inv2 no) (inv2 ne) _ _ _ Hs Hpz) as [E1 E2]; [apply inv2_antitone; assumption |].
-    rewrite E1, E2. split; [apply inv_sqrt_inv2; assumption | reflexivity].
-  - destruct (uniaxial_roots_pos (inv2 no) (inv2 ne) _ _ _ Hs Hpz) as [E1 E2]; [apply inv2_antitone; assumption |].
-    rewrite E1, E2. split; [reflexivity | apply inv_sqrt_inv2; assumption].
+  intros Hno Hne Hs. unfold n_uniaxial. replace (cos th ^ 2) with (cos th * cos th) by ring.
+  apply uniaxial_closed_form_sz; assumption.
 Qed.
 
 (* the direction-dependent value is well defined and lies between n_o and n_e *)
